@@ -317,8 +317,13 @@ class Unit:
                 self.items.append({"kind": "raw", "tag": tag, "text": "\n".join(body), "where": where, "only": props})
                 item = None
             elif name == "fn":
-                rel, nm = arg.split()[:2]
-                opts = arg.split()[2:]
+                if '"' in arg:
+                    rel = arg.split()[0]
+                    nm = re.findall(r'"([^"]*)"', arg)[0]
+                    opts = arg.split('"')[-1].split()
+                else:
+                    rel, nm = arg.split()[:2]
+                    opts = arg.split()[2:]
                 item = {
                     "kind": "fn", "rel": rel, "name": nm, "opts": opts, "where": where, "ret": None,
                     "clauses": [], "loops": {}, "ats": [], "arounds": [], "letty": {}, "sig": {},
@@ -350,6 +355,30 @@ class Unit:
                 sub = None
             elif name == "ret":
                 item["ret"] = arg.strip()
+            elif name == "rettype":
+                item["rettype"] = full
+            elif name == "importfn":
+                # @importfn <unit> <rel> <fn path> : contract proved in another unit, reused here as external_body
+                ou, rel, nm = arg.split()[:3]
+                other = Unit(os.path.join(os.path.dirname(self.path), ou + ".vspec"))
+                src_items = [i for i in other.items if i["kind"] == "fn" and i["name"] == nm and i["rel"] == rel]
+                if len(src_items) != 1:
+                    raise Inconclusive(f"sidecar {where}: @importfn {nm} not found in unit {ou}")
+                oi = src_items[0]
+                item = dict(oi)
+                item["external"] = True
+                item["imported_from"] = ou
+                item["loops"], item["ats"], item["arounds"], item["closurefns"], item["callmap"], item["letty"] = {}, [], [], {}, [], {}
+                item["opts"] = []
+                item["clauses"] = []
+                for c in oi["clauses"]:
+                    if c.kind in ("requires", "ensures"):
+                        # within this unit the imported clause serves every property of this unit as an assumption
+                        item["clauses"].append(Clause(c.kind, "import." + ou + "." + c.id, list(self.props), [], c.text, c.where))
+                item["safety"] = None
+                self.items.append(item)
+                loop = None
+                sub = None
             elif name == "external_body":
                 item["external"] = True
             elif name == "sig":
@@ -564,11 +593,35 @@ class Gen:
             ed.delete(a["s"], a["e"])
         # -- signature: named return, parameter type substitutions
         out = kid(sig, "output")
+        as_name = [o[3:] for o in it["opts"] if o.startswith("as=")]
+        free = "free" in it["opts"]
+        if as_name and not self.vac:
+            m = re.search(rb"\bfn\s+" + fn["a"]["ident"].encode() + rb"\b", src.bytes[sig["s"]:sig["e"]])
+            ed.replace(sig["s"] + m.end() - len(fn["a"]["ident"]), sig["s"] + m.end(), as_name[0], ("rule", "rename"))
+            if free and impl is not None and impl["a"].get("generics"):
+                ed.insert(sig["s"] + m.end(), impl["a"]["generics"], ("rule", "rename"))
+        elif as_name and self.vac:
+            m = re.search(rb"\bfn\s+" + fn["a"]["ident"].encode() + rb"\b", src.bytes[sig["s"]:sig["e"]])
+            ed.replace(sig["s"] + m.end() - len(fn["a"]["ident"]), sig["s"] + m.end(), as_name[0], ("rule", "rename"))
+            if free and impl is not None and impl["a"].get("generics"):
+                ed.insert(sig["s"] + m.end(), "__vac" + impl["a"]["generics"], ("rule", "rename"))
+        if it.get("rettype") and out is not None:
+            ed.replace(out["s"], out["e"], it["rettype"], ("rule", "rettype"))
+            out = dict(out)
+            out["_replaced"] = True
+        elif free and out is not None and norm(out["a"]["text"]) == "Self" and impl is not None:
+            ed.replace(out["s"], out["e"], impl["a"]["self_ty"], ("rule", "rename"))
+            out = dict(out)
+            out["_replaced"] = True
         if it["ret"]:
             if out is None:
                 raise Inconclusive(f"lost anchor: {it['name']} has no return type but sidecar names one")
-            ed.insert(out["s"], f"({it['ret']}: ", ("glue",))
-            ed.insert(out["e"], ")", ("glue",))
+            if out.get("_replaced"):
+                ed.insert(out["s"], f"({it['ret']}: ", ("glue",))
+                ed.replace(out["e"], out["e"], ")", ("glue",))
+            else:
+                ed.insert(out["s"], f"({it['ret']}: ", ("glue",))
+                ed.insert(out["e"], ")", ("glue",))
         for arg in kids(sig, "input"):
             if arg["k"] == "FnArg":
                 p = kid(arg, "pat")
@@ -590,8 +643,9 @@ class Gen:
             # ORIGINAL callees (whose contracts are unchanged), so it verifies only if the function's own
             # preconditions / assumed specs are contradictory or no path returns.
             active = active + [Clause("ensures", "__vacuity." + it["name"], self.unit.props, [], "false", "vacuity")]
-            m = re.search(rb"\bfn\s+" + fn["a"]["ident"].encode() + rb"\b", src.bytes[sig["s"]:sig["e"]])
-            ed.insert(sig["s"] + m.end(), "__vac", ("glue",))
+            if not ("free" in it["opts"] and impl is not None and impl["a"].get("generics") and [o for o in it["opts"] if o.startswith("as=")]):
+                m = re.search(rb"\bfn\s+" + fn["a"]["ident"].encode() + rb"\b", src.bytes[sig["s"]:sig["e"]])
+                ed.insert(sig["s"] + m.end(), "__vac", ("glue",))
         # build with per-clause origins
         pieces = []
         for kind in ("requires", "ensures", "decreases"):
@@ -613,6 +667,8 @@ class Gen:
         else:
             self.rewrite_body(it, src, fn, body, ed)
         # -- wrap in impl header
+        if "free" in it["opts"]:
+            impl = None
         if impl is not None and impl["k"] == "Impl":
             hdr = src.text(impl["s"], int(impl["a"]["brace_s"]))
             # strip attributes/doc comments preceding 'impl'
@@ -741,6 +797,31 @@ class Gen:
                 self.rw_position(it, src, fn, body, n, ed, pieces, idx)
             elif kind in ("any", "all"):
                 self.rw_any(it, src, fn, body, n, ed, pieces, idx, kind)
+
+        # R8: error-message construction and logging are outside every property
+        for n in walk(body):
+            if n["k"] == "Macro" and n["a"]["mac"] in ("anyhow::anyhow", "anyhow"):
+                ed.replace(n["s"], n["e"], "anyhow::__opaque_error()", ("rule", "R8"))
+                self.fired("R8")
+            elif n["k"] == "StmtMacro" and n["a"]["mac"] in ("debug", "trace", "info", "warn", "tracing::debug", "tracing::trace"):
+                ed.delete(n["s"], n["e"], ("rule", "R8"))
+                self.fired("R8")
+            elif n["k"] == "StmtMacro" and n["a"]["mac"] in ("anyhow::bail", "bail"):
+                ed.replace(n["s"], n["e"], "return Err(anyhow::__opaque_error());", ("rule", "R8"))
+                self.fired("R8")
+
+        # R16: `E.map_err(F)?`  ->  `(match E { Ok(v) => v, Err(e) => return Err(F(e)) })`   (F a path)
+        for n in walk(body):
+            if n["k"] == "Try" and kid(n, "expr")["k"] == "MethodCall" and kid(n, "expr")["a"]["method"] == "map_err":
+                mc = kid(n, "expr")
+                F = kids(mc, "arg")[0]
+                E = kid(mc, "receiver")
+                if F["k"] != "Path":
+                    raise Inconclusive(f"unsupported construct: map_err argument at {src.rel}:{src.line_of(n['s'])}")
+                ed.replace(n["s"], E["s"], "(match ", ("rule", "R16"))
+                ed.replace(E["e"], F["s"], " { Ok(__v) => __v, Err(__e) => return Err(", ("rule", "R16"))
+                ed.replace(F["e"], n["e"], "(__e)) })", ("rule", "R16"))
+                self.fired("R16")
 
         # R17: Option combinators taking a closure, desugared to `match` per their std definitions
         #      (closure body and receiver spliced verbatim)
